@@ -176,7 +176,9 @@ package server
 //@   requires old != nil ==> old.GetSource() != nil
 //@   claims at-return
 //@   at-return requires ret0 != nil && !ret0.IsWithdraw && peer.isIBGPPeer() && !ret0.IsLocal() ==> ret0.GetSource().AS != peer.AS() || ret0.GetSource().RouteReflectorClient || peer.isRouteReflectorClient()
-//@   at-return requires ret0 != nil && !ret0.IsWithdraw && !peer.isRouteServerClient() && isASLoop(peer, ret0) ==> ret0.IsLocal() && peer.allowAsPathLoopLocal()
+// (route-server clients included: the per-client best-path filter does the same for them on the ordinary path, but
+// secondary routes and add-path candidates reach filterpath unfiltered)
+//@   at-return requires ret0 != nil && !ret0.IsWithdraw && isASLoop(peer, ret0) ==> ret0.IsLocal() && peer.allowAsPathLoopLocal()
 //@   at-return requires ret0 != nil && !ret0.IsWithdraw && peer.IsFamilyEnabled(bgp.RF_RTC_UC) && ret0.GetFamily() != bgp.RF_RTC_UC ==> peer.interestedIn(ret0)
 
 // from C09 "received routes containing the local AS beyond allow-own-as, or the local router-id as ORIGINATOR_ID ...
